@@ -5,6 +5,8 @@
  *   init <nloops> <loop-of-h0> <loop-of-h1> ...
  *   script <k> <op>:<h>[:<sig>] ...      ops of the k-th signal callback (global count)
  *   start hN sig | oneshot hN sig | stop hN | close hN | raise sig | run L
+ *   runraise L sig     one loop iteration during which `sig` is raised from a uv_check
+ *                      callback, i.e. after the poll phase and before the closing phase
  *
  * The RB tree orders by loop pointer, then handle pointer: loops and handles are
  * malloc'ed up front, the pointers sorted, and id i is the i-th smallest address, so
@@ -21,6 +23,8 @@
 #define MAXK 4096
 static uv_loop_t* loops[MAXL];
 static uv_signal_t* hs[MAXH];
+static uv_check_t chk[MAXL];
+static int chk_sig;
 static int hloop[MAXH];
 static int freed[MAXH];
 static int nl, nh;
@@ -70,6 +74,17 @@ static void signal_cb(uv_signal_t* h, int signum) {
   }
 }
 
+static void do_raise(int sig) {
+  struct sigaction sa;
+  sigaction(sig, NULL, &sa);
+  if (sa.sa_handler == SIG_DFL) printf("raise skipped-default\n");   /* guard: never take the default action */
+  else { raise(sig); printf("raised\n"); }
+}
+
+static void check_cb(uv_check_t* c) { uv_check_stop(c); do_raise(chk_sig); }
+
+static int known_sig(int sig) { for (int j = 0; j < NSIGS; j++) if (SIGS[j] == sig) return 1; return 0; }
+
 static void obs(void) {
   printf("obs sigaction");
   for (int j = 0; j < NSIGS; j++) {
@@ -102,17 +117,19 @@ int main(void) {
       qsort(hs, nh, sizeof hs[0], cmpp);
       for (i = 0; i < nl; i++) if (uv_loop_init(loops[i])) abort();
       for (i = 0; i < nh; i++) if (uv_signal_init(loops[hloop[i]], hs[i])) abort();
+      for (i = 0; i < nl; i++) uv_check_init(loops[i], &chk[i]);
       obs();
     } else if (sscanf(line, "script %u %n", &k, &off) == 1 && k < MAXK) {
       free(script[k]); script[k] = strdup(line + off);
     } else if (sscanf(line, "raise %d", &sig) == 1) {
-      struct sigaction sa;
-      int known = 0;
-      for (int j = 0; j < NSIGS; j++) known |= SIGS[j] == sig;
-      if (!known) { printf("bad-op\n"); continue; }
-      sigaction(sig, NULL, &sa);
-      if (sa.sa_handler == SIG_DFL) printf("raise skipped-default\n");   /* guard: never take the default action */
-      else { raise(sig); printf("raised\n"); }
+      if (!known_sig(sig)) { printf("bad-op\n"); continue; }
+      do_raise(sig);
+      obs();
+    } else if (sscanf(line, "runraise %d %d", &i, &sig) == 2 && i >= 0 && i < nl && known_sig(sig)) {
+      chk_sig = sig;
+      uv_check_start(&chk[i], check_cb);
+      uv_run(loops[i], UV_RUN_NOWAIT);
+      printf("ran %d\n", i);
       obs();
     } else if (sscanf(line, "run %d", &i) == 1 && i >= 0 && i < nl) {
       uv_run(loops[i], UV_RUN_NOWAIT);
